@@ -9,7 +9,7 @@
 (* event never stops the run.  The postcondition checks that every line    *)
 (* was consumed.                                                           *)
 (***************************************************************************)
-EXTENDS TierProp, TLC, TLCExt, Json, IOUtils
+EXTENDS TierProp, QueryProp, TLC, TLCExt, Json, IOUtils
 
 Events == ndJsonDeserialize(IOEnv.TRACE_FILE)
 
@@ -17,9 +17,10 @@ VARIABLE l
 TraceInit == l = 1
 TraceNext == /\ l <= Len(Events)
              /\ LET e == Events[l]
-                    f == Fails(e) \cup (IF e.offgrid = 0 THEN {} ELSE {"times_off_grid"})
-                                  \cup (IF e.rawwf THEN {} ELSE {"C05_raw_float_wellformed"})
-                                  \cup (IF e.validok THEN {} ELSE {"C05_validate_agrees"})
+                    f == IF e.fam = "query" THEN QueryFails(e) \cup (IF e.offgrid = 0 THEN {} ELSE {"times_off_grid"})
+                         ELSE Fails(e) \cup (IF e.offgrid = 0 THEN {} ELSE {"times_off_grid"})
+                                       \cup (IF e.rawwf THEN {} ELSE {"C05_raw_float_wellformed"})
+                                       \cup (IF e.validok THEN {} ELSE {"C05_validate_agrees"})
                 IN IF f = {} THEN TRUE ELSE PrintT(<<"VERDICT", e.id, f>>)
              /\ l' = l + 1
 TraceSpec == TraceInit /\ [][TraceNext]_l
